@@ -28,6 +28,8 @@ Synopsis(d) == TrimSpace(Lines(TrimSpace(d))[1])
 JoinRel(l) == JoinBy(l, ", ")
 NonBlank(l) == SelectSeq(TrimEach(l), LAMBDA x : x # "")
 
+(* every line of a changelog note is there (formats indent / bullet the continuation lines differently) *)
+NoteIn(text, note) == \A ln \in SeqToSet(Lines(note)) : Contains(text, TrimSpace(ln))
 DebArchField(f, c) == IF EffPlatform(c) # "linux" THEN EffPlatform(c) \o "-" \o ArchOf(f, c) ELSE ArchOf(f, c)
 DefaultMaintainer == "Unset Maintainer <unset@localhost>"
 
@@ -84,7 +86,7 @@ MetaClauses(f, c, evs) ==
                   THEN Fail(\E i \in 1..Len(evs) : evs[i].ev = "changelog" /\
                               \A j \in 1..Len(c.changelog) :
                                  /\ Contains(evs[i].text, c.changelog[j].semver)
-                                 /\ \A n \in 1..Len(c.changelog[j].notes) : Contains(evs[i].text, c.changelog[j].notes[n]),
+                                 /\ \A n \in 1..Len(c.changelog[j].notes) : NoteIn(evs[i].text, c.changelog[j].notes[n]),
                             f, "changelog")
                   ELSE Fail(~\E i \in 1..Len(evs) : evs[i].ev = "changelog", f, "changelog"))
     [] f = "ipk" ->
@@ -143,7 +145,7 @@ MetaClauses(f, c, evs) ==
                   THEN Fail(/\ ListIs(evs, in, "1080", [i \in 1..Len(ch) |-> NatToStr(ch[i].date)])
                             /\ ListIs(evs, in, "1081", [i \in 1..Len(ch) |-> ch[i].packager \o " - " \o ch[i].semver])
                             /\ HasMeta(evs, in, "1082") /\ Len(MetaVals(evs, in, "1082")) = Len(ch)
-                            /\ \A i \in 1..Len(ch) : \A n \in 1..Len(ch[i].notes) : Contains(MetaVals(evs, in, "1082")[i], ch[i].notes[n]),
+                            /\ \A i \in 1..Len(ch) : \A n \in 1..Len(ch[i].notes) : NoteIn(MetaVals(evs, in, "1082")[i], ch[i].notes[n]),
                             f, "CHANGELOG")
                   ELSE Fail(~HasMeta(evs, in, "1080") /\ ~HasMeta(evs, in, "1081") /\ ~HasMeta(evs, in, "1082"), f, "CHANGELOG"))
     [] f = "apk" ->
